@@ -5,6 +5,7 @@ import (
 	"go/constant"
 	"go/types"
 	"os"
+	"regexp"
 	"strings"
 
 	"golang.org/x/tools/go/ssa"
@@ -149,6 +150,8 @@ func chanVarName(v ssa.Value) string {
 		return v.Name()
 	case *ssa.FreeVar:
 		return v.Name()
+	case *ssa.Phi:
+		return v.Comment // loop-carried local channel variable
 	case *ssa.UnOp:
 		if fv, ok := v.X.(*ssa.FreeVar); ok {
 			return fv.Name()
@@ -219,6 +222,13 @@ func (fr *frame) countCall(c *ssa.CallCommon, name string, args []Val, atypes []
 					h = h.set(ak, a.ts[1]) // interface arguments: the payload (boxed value / pointer), not the type tag
 				} else {
 					h = h.set(ak, asInt(a.ts[0], leaves(atypes[i])[0].Sort))
+					// further leaves of the argument (slice offset / length / capacity ...): lastargn(name, i, k)
+					ls := leaves(atypes[i])
+					for k := 1; k < len(a.ts) && k < len(ls) && k < 4; k++ {
+						akk := fmt.Sprintf("%s:%d", ak, k)
+						x.regKey(akk, "Int")
+						h = h.set(akk, asInt(a.ts[k], ls[k].Sort))
+					}
 				}
 			}
 		}
@@ -377,10 +387,88 @@ func (x *Enc) specCall(key string, args []Val, atypes []types.Type, rt types.Typ
 	return out
 }
 
+// storedKeysOf: registered heap keys that the body of the function under the given contract stores to directly
+// (field stores, element stores, stores through pointers, map updates), by key prefix.
+func (x *Enc) storedKeysOf(con *Contract) map[string]bool {
+	fn := x.eng.findFunction(con)
+	if fn == nil {
+		return nil
+	}
+	var prefixes []string
+	addType := func(t types.Type) {
+		if _, ok := t.Underlying().(*types.Struct); ok {
+			prefixes = append(prefixes, "F:"+typeKey(t)+":")
+		}
+	}
+	var visit func(f *ssa.Function)
+	visit = func(f *ssa.Function) {
+		for _, blk := range f.Blocks {
+			for _, in := range blk.Instrs {
+				switch in := in.(type) {
+				case *ssa.Store:
+					vt := derefType(in.Addr.Type())
+					switch a := in.Addr.(type) {
+					case *ssa.FieldAddr:
+						st := derefType(a.X.Type())
+						u := st.Underlying().(*types.Struct)
+						prefixes = append(prefixes, fieldKey(st, "."+u.Field(a.Field).Name()))
+						addType(vt)
+					case *ssa.IndexAddr:
+						prefixes = append(prefixes, elemKeyOf(vt, ""))
+						addType(vt)
+					case *ssa.Alloc:
+						// a local of the callee
+					default:
+						prefixes = append(prefixes, ptrKey(vt, ""))
+						addType(vt)
+					}
+				case *ssa.MapUpdate:
+					prefixes = append(prefixes, "M:"+typeKey(in.Map.Type())+":")
+				}
+			}
+		}
+		for _, af := range f.AnonFuncs {
+			visit(af)
+		}
+	}
+	visit(fn)
+	out := map[string]bool{}
+	for k := range x.keys {
+		for _, p := range prefixes {
+			if strings.HasPrefix(k, p) {
+				out[k] = true
+			}
+		}
+	}
+	return out
+}
+
 func (fr *frame) applyContract(b *ssa.BasicBlock, site ssa.Instruction, con *Contract, name string, args []Val, atypes []types.Type, sig *types.Signature, rt types.Type, reach Term, h Heap) (Val, Heap) {
 	x := fr.x
 	if con.Trusted {
 		x.assumed["assumed contract of "+name] = true
+	}
+	// contract of a method of a generic type applied at an instantiation: the contract's clauses are typed with the
+	// type parameters; heap keys derived from those types must be the caller's (instantiated) ones
+	if ci, ok := site.(ssa.CallInstruction); ok {
+		if f := ci.Common().StaticCallee(); f != nil && f.Origin() != nil && len(f.TypeArgs()) > 0 {
+			var tps *types.TypeParamList
+			if osig := f.Origin().Signature; osig.RecvTypeParams().Len() > 0 {
+				tps = osig.RecvTypeParams()
+			} else {
+				tps = osig.TypeParams()
+			}
+			if tps != nil && tps.Len() == len(f.TypeArgs()) {
+				saved := typeSubst
+				for i := 0; i < tps.Len(); i++ {
+					typeSubst = append(typeSubst, typeSubstEntry{
+						re: regexp.MustCompile(`(^|[^\w./])` + regexp.QuoteMeta(tps.At(i).Obj().Name()) + `\b`),
+						to: "${1}" + typeKey(f.TypeArgs()[i]),
+					})
+				}
+				defer func() { typeSubst = saved }()
+			}
+		}
 	}
 	// environment: synthetic param names
 	env := map[string]Val{}
@@ -404,7 +492,11 @@ func (fr *frame) applyContract(b *ssa.BasicBlock, site ssa.Instruction, con *Con
 	nh := h
 	modKeys, modLocs, all := x.modifiesOf(con, env, h)
 	if all {
+		// the caller's havoc_preserves assumption speaks about callees that are not under contract; a contracted
+		// callee that writes such a key in its own body is not covered by it
+		x.noPreserve = x.storedKeysOf(con)
 		nh = x.havocAll(h, reach)
+		x.noPreserve = nil
 	} else if len(modKeys) > 0 || len(modLocs) > 0 {
 		for _, k := range sortedKeys(modKeys) {
 			nh = nh.set(k, x.freshConst("Hcall!"+cleanKey(k), x.keys[k]))
@@ -645,7 +737,9 @@ func (fr *frame) appendBuiltin(args []Val, atypes []types.Type, rt types.Type, r
 	na := x.freshConst("alloc", "Int")
 	x.sc.assert(and(app(">=", na, x.hget(h, keyAlloc)), app(">=", na, nb)))
 	nh := h.set(keyAlloc, na)
-	noff := ite(inPlace, s.ts[1], "0")
+	// a named constant, not the ite term itself: the offset occurs in quantifier patterns, where `ite` is not allowed
+	noff := x.freshConst("appoff", "Int")
+	x.sc.assert(eq(noff, ite(inPlace, s.ts[1], "0")))
 	ncap := x.freshConst("appcap", "Int")
 	x.sc.assert(and(app(">=", ncap, newLen), implies(inPlace, eq(ncap, s.ts[3]))))
 	res := Val{ts: []Term{nb, noff, newLen, ncap}}
